@@ -53,11 +53,15 @@ RULE = ('cases: (a) exhaustive: for each of the 256 opcodes and each of the 8 co
         'depth 5, entry-value and implicit-value blocks announcing 1..2^64 bytes more than remain, at depth 0..5, padded '
         'length fields, arbitrary bytes behind; (e) histories: two fresh parser objects, 1..3 expressions parsed 3..8 '
         'times in a random order with at least one repetition, each result (and the input list) scrambled in place '
-        'after it was compared. distinct = hash(kind, abstract); non-trivial = the '
+        'after it was compared; histories with other activity of the process between the parses (a .debug_frame with a '
+        'CIE of version 1/3/4 - v4 with the same or another address_size - decoded through CallFrameInfo over the same '
+        'structs configuration, other DWARFStructs configurations requested, parser replaced / deep-copied, gc), ending '
+        'with a probe expression using every operand kind on an old and a new parser. distinct = hash(kind, abstract); non-trivial = the '
         'case contains an operand or at least two operations')
 
 CONFIGS = [(le, addr, fmt) for le in (1, 0) for addr in (4, 8) for fmt in (32, 64)]
 MAXDEPTH = 5
+BLAME_CAP = 300
 
 
 # ------------------------------------------------------------------ generators of encodings (certified by the Coq wf check)
@@ -346,7 +350,81 @@ def gen_hist(ctx, table, opcodes, with_operands):
         if rng.random() < 0.5:
             order.append(list(order[0]))
         cases.append(('hist', [cfg, exprs, order]))
+    # other activity of the process between parses (steps whose first element is a string; the stateless answer does not
+    # change): a .debug_frame section decoded through CallFrameInfo over the parser's structs configuration (CIE version
+    # 1/3/4, a v4 address_size equal to or different from the unit's, DWARF32/64 entries, with/without an FDE), other
+    # DWARFStructs configurations requested, a parser deep-copied / replaced by a new one, a garbage collection.  Every
+    # such history ends by parsing a probe expression that uses every operand kind on an old and on a new parser.
+    for cfg in CONFIGS:
+        for ver in (1, 3, 4):
+            for asz in ((4, 8) if ver == 4 else (cfg[1],)):
+                for fde in (0, 1):
+                    order = [[0, 0], ['frame', cfg[2], ver, asz, fde], [0, 0], ['renew', 1], [1, 0]]
+                    cases.append(('hist', [list(cfg), [probe_expr(rng, table, cfg)], order]))
+    for _ in range(ctx.scale(250, 4000)):
+        cfg = rng.choice(CONFIGS)
+        exprs = [[rand_op(rng, table, opcodes, with_operands, cfg, 0, rng.choice([0, 1, 2]))
+                  for _o in range(rng.choice([1, 2, 3, 5]))] for _e in range(rng.choice([0, 1, 2]))]
+        exprs.append(probe_expr(rng, table, cfg))
+        order = []
+        for _s in range(rng.randint(2, 7)):
+            r = rng.random()
+            if r < 0.45:
+                order.append([rng.choice([0, 0, 1]), rng.randrange(len(exprs))])
+            elif r < 0.75:
+                ver = rng.choice([1, 3, 4, 4, 4])
+                order.append(['frame', rng.choice([cfg[2], cfg[2], 32, 64]), ver,
+                              rng.choice([4, 8]) if ver == 4 else cfg[1], rng.choice([0, 1])])
+            elif r < 0.82:
+                order.append(['structs', rng.choice([0, 1]), rng.choice([32, 64]), rng.choice([4, 8]), rng.choice([2, 3, 4, 5])])
+            elif r < 0.97:             # (a full collection costs ~0.2 s on the harness's heap: keep it rare)
+                order.append([rng.choice(['renew', 'deepcopy']), rng.choice([0, 1])])
+            else:
+                order.append(['gc'])
+        p = len(exprs) - 1
+        order += [[0, p], ['renew', 1], [1, p]]
+        cases.append(('hist', [list(cfg), exprs, order]))
     return cases
+
+
+def probe_expr(rng, table, cfg):
+    """a well-formed expression with one operation of every operand-kind list of the table (address- and
+    offset-sized operands at full width, also inside an entry-value block)"""
+    by_kinds = {}
+    for o in sorted(table):
+        by_kinds.setdefault(tuple(table[o][1]), o)
+    ops = []
+    for ks, o in sorted(by_kinds.items()):
+        if ks and ks != ('NESTED',):
+            ops.append(['op', o, [['i', fixed_boundary(k, cfg)[5]] if k in ('ADDR', 'OFFSET') else rand_val(rng, k, cfg)
+                                  for k in ks]])
+    nested = by_kinds[('NESTED',)]
+    return ops + [['nest', nested, 0, [o for o in ops if table[o[1]][1][0] in ('ADDR', 'OFFSET', 'U8', 'SLEB')]],
+                  ['op', 0x9f, []]]
+
+
+def frame_section(le, fmt, ver, asz, fde):
+    """a small .debug_frame: one CIE of the given version (a v4 CIE states address_size [asz]) in a DWARF32/64 entry,
+    optionally one FDE laid out for [asz]-byte addresses"""
+    import struct
+    e = '<' if le else '>'
+    idw = 'Q' if fmt == 64 else 'I'
+
+    def entry(body):
+        body += b'\x00' * (-len(body) % asz)          # DW_CFA_nop padding
+        if fmt == 64:
+            return b'\xff\xff\xff\xff' + struct.pack(e + 'Q', len(body)) + body
+        return struct.pack(e + 'I', len(body)) + body
+    cie = struct.pack(e + idw, (1 << (64 if fmt == 64 else 32)) - 1) + bytes([ver]) + b'\x00'
+    if ver >= 4:
+        cie += bytes([asz, 0])
+    cie += b'\x01\x7c\x08' + b'\x0c\x07\x08'         # code align 1, data align -4, RA r8; DW_CFA_def_cfa r7, 8
+    sec = entry(cie)
+    if fde:
+        order = 'little' if le else 'big'
+        sec += entry(struct.pack(e + idw, 0) + (0x401000).to_bytes(asz, order) + (0x40).to_bytes(asz, order) +
+                     b'\x41\x0e\x10')               # advance_loc 1; def_cfa_offset 16
+    return sec
 
 
 def _scramble(ops):
@@ -484,6 +562,35 @@ def _new_parser(cfg):
     return DWARFExprParser(DWARFStructs(little_endian=bool(cfg[0]), dwarf_format=cfg[2], address_size=cfg[1]))
 
 
+def _other_activity(st, cfg, objs):
+    """a step of a history that is not a parse: other use of the library in the same process.  Its own outcome is
+    not C12's business (exceptions are swallowed); the parses after it are."""
+    import copy
+    import gc
+    import io
+    if st[0] not in ('frame', 'structs', 'renew', 'deepcopy', 'gc'):
+        raise ValueError(st)
+    try:
+        if st[0] == 'frame':
+            from elftools.dwarf.callframe import CallFrameInfo
+            from elftools.dwarf.structs import DWARFStructs
+            data = frame_section(bool(cfg[0]), st[1], st[2], st[3], st[4])
+            base = DWARFStructs(little_endian=bool(cfg[0]), dwarf_format=cfg[2], address_size=cfg[1])
+            for e in CallFrameInfo(io.BytesIO(data), len(data), 0, base).get_entries():
+                e.get_decoded()
+        elif st[0] == 'structs':
+            from elftools.dwarf.structs import DWARFStructs
+            DWARFStructs(little_endian=bool(st[1]), dwarf_format=st[2], address_size=st[3], dwarf_version=st[4])
+        elif st[0] == 'renew':
+            objs[st[1]] = _new_parser(cfg)
+        elif st[0] == 'deepcopy':
+            objs[st[1]] = copy.deepcopy(objs[st[1]])
+        else:
+            gc.collect()
+    except Exception:
+        pass
+
+
 def _verdict(r):
     """accept/reject: which exception refuses an ill-formed expression is not part of the property"""
     return ['rejected'] if isinstance(r, (list, tuple)) and r and r[0] == 'err' else r
@@ -495,7 +602,17 @@ def _impl(parsers, cfg, data):
 
 
 def _blame(ctx, parsers, table, cfg, ops):
-    """finding key of a failing in-domain case: the first operation (innermost first) that also fails alone"""
+    """finding key of a failing in-domain case: the first operation (innermost first) that also fails alone.
+    Each classification costs a driver round trip: after BLAME_CAP failing cases (everything fails, e.g. an empty
+    dispatch table) the remaining ones are only sorted by their outcome."""
+    n = getattr(ctx, '_c12_blames', 0)
+    ctx._c12_blames = n + 1
+    if n >= BLAME_CAP:
+        if n == BLAME_CAP:
+            ctx.notes.append('more than %d failing cases: the later ones are not classified per operation' % BLAME_CAP)
+        r = ctx.driver.one(['case', cfg, ops])
+        impl = _impl(parsers, cfg, r[2])
+        return 'unclassified-after-%d-failures-%s' % (BLAME_CAP, impl[1] if impl[0] == 'err' else 'wrong-result')
     seen = set()
     singles = []
     for o in flat_ops(ops):
@@ -602,11 +719,23 @@ def evaluate(ctx, cases):
             datas = [x[2] for x in ans]
             expected = [_norm(x[3]) for x in ans]
             models = [_norm(x[4]) for x in ans]
+            if getattr(ctx, '_c12_process_changed', False):
+                # an earlier history changed what parsers of OTHER objects return (process-wide state): what follows
+                # in this process says nothing about the case itself and would not replay
+                ctx.bump('history_skipped', 'process-wide state changed by an earlier history')
+                continue
+            parses = [st for st in order if not isinstance(st[0], str)]
+            used = sorted(set(ei for _, ei in parses))
+            alone_before = [ei for ei in used if _impl(parsers, cfg, datas[ei]) != expected[ei]]
             objs = [_new_parser(cfg), _new_parser(cfg)]
 
             def run():
                 out = []
-                for pi, ei in order:
+                for st in order:
+                    if isinstance(st[0], str):
+                        _other_activity(st, cfg, objs)
+                        continue
+                    pi, ei = st
                     arg = list(datas[ei])
                     r = objs[pi].parse_expr(arg)
                     out.append(_conv_ops(r))
@@ -614,18 +743,25 @@ def evaluate(ctx, cases):
                     arg[:] = [0x96] * (len(arg) + 1)   # ...and what it passed in
                 return ['ok', out]
             impl = impl_call(run)
-            spec = ['ok', [expected[ei][1] for _, ei in order]]
+            spec = ['ok', [expected[ei][1] for _, ei in parses]]
             bad_m = [m for m in models if m[0] != 'ok']
-            model = bad_m[0] if bad_m else ['ok', [models[ei][1] for _, ei in order]]
+            model = bad_m[0] if bad_m else ['ok', [models[ei][1] for _, ei in parses]]
             key = None
             if impl != spec:
-                key = 'history-dependence'
-                for ei in sorted(set(ei for _, ei in order)):
-                    if _impl(parsers, cfg, datas[ei]) != expected[ei]:
-                        key = _blame(ctx, parsers, table, cfg, exprs[ei])
-                        break
-            ctx.bump('history_calls', len(order))
-            ctx.bump('history_repeats', len(order) - len(set(map(tuple, order))))
+                if alone_before:                       # wrong already as a first parse on an unrelated parser
+                    key = _blame(ctx, parsers, table, cfg, exprs[alone_before[0]])
+                else:
+                    key = 'history-dependence'
+                    if any(_impl(parsers, cfg, datas[ei]) != expected[ei] for ei in used):
+                        ctx._c12_process_changed = True
+                        ctx.notes.append('a history changed the answers of parsers it never touched (process-wide state); '
+                                         'the remaining histories of this run were skipped')
+            for st in order:
+                if isinstance(st[0], str):
+                    ctx.bump('history_other_activity', st[0] if st[0] != 'frame' else
+                             'frame-v%d-%s' % (st[2], 'same-addr' if st[3] == cfg[1] else 'other-addr'))
+            ctx.bump('history_calls', len(parses))
+            ctx.bump('history_repeats', len(parses) - len(set(map(tuple, parses))))
             ctx.record('hist', a, impl=impl, spec=spec, model=model, in_domain=True, nontrivial=True, key=key)
         else:
             data = a[1]
